@@ -13,6 +13,27 @@ CHECKS = {
         "differential execution under ASan/UBSan; Lean native runtime for the driver.",
    technique="Lean 4 proof (decode_iff, decode_wf37, decodeAll_iff, isUTF8_iff) + model/impl correspondence run",
    design="6/C12"),
+ "C09": dict(
+   text="Kernel-checked Lean theorems over a model of base64.cc/docenc_main.cc whose tables (INV_TABLE, TABLE) and strip_cr "
+        "argument are regenerated from the C++ source on every run: TABLE is the RFC 4648 alphabet, INV_TABLE is its exact inverse "
+        "(all 256 entries), encode = RFC 4648 for every byte string (32-bit wrap-around accumulator modelled), decode(encode x) = x "
+        "padded and unpadded, any foreign byte before '=' is an error, docenc -d | docenc reproduces every valid document sequence "
+        "for both separators, index arguments select exactly the listed documents. Tied to the code by differential runs "
+        "(in-process codec, real bin/docenc) with the Lean spec as oracle.",
+   note="Trusted: Lean kernel + standard axioms; translator (gen_consts.py/consts_main.cc); hand-written control-flow model tied by "
+        "bounded differential execution; signed overflow in the accumulators assumed to wrap (gcc).",
+   technique="Lean 4 proof over generated tables (decide +kernel, induction on 3-byte groups) + correspondence run",
+   design="6/C09"),
+ "C14": dict(
+   text="Kernel-checked Lean theorems: the index-based UInt64 model of MurmurHash64A (multiplier/shift regenerated from the source) "
+        "never reads outside the string, equals reference MurmurHash64A for every byte string and seed, the field key is the left "
+        "fold with the previous value as seed, and the constants/seeds in the source are the reference ones. Tied to "
+        "util/murmur_hash.cc by differential runs at every length 0..300(4096), all 8 alignments under ASan, and through "
+        "bin/mmhsum and bin/order_independent_hash.",
+   note="Trusted: Lean kernel + standard axioms; translator for m, r and the tool seeds (source-text extraction); little-endian "
+        "64-bit path only (MurmurHash64B/ARM not modelled).",
+   technique="Lean 4 proof (hash_eq_reference, reads_in_bounds) + correspondence run",
+   design="6/C14"),
 }
 
 NOT_APPLICABLE = []
